@@ -6,10 +6,13 @@ package main
 import (
 	"fmt"
 	"go/ast"
+	"go/constant"
 	"go/token"
 	"go/types"
+	"regexp/syntax"
 	"sort"
 	"strings"
+	"unicode/utf8"
 
 	"golang.org/x/tools/go/ssa"
 )
@@ -56,6 +59,7 @@ type Frame struct {
 	entry  *State
 	loops  map[*ssa.BasicBlock]*loopInfo
 	curBlock *ssa.BasicBlock
+	curState *State
 	blockPC  Term
 	dead    bool // current path ended (panic)
 	debugVals map[string]ssa.Value
@@ -109,9 +113,14 @@ func (ex *Exec) obligeEnv(fr *Frame, kind, detail string, pc, goal Term, pos tok
 		name = fmt.Sprintf("%s#%d", name, n)
 	}
 	var knownHit *Known
+	origGoal := goal
 	if k := knownFor(name); k != nil {
 		if env == nil {
-			env = ex.entryEnv(fr)
+			if fr.curBlock != nil && fr.curState != nil {
+				env = ex.loopEnv(fr, fr.curState)
+			} else {
+				env = ex.entryEnv(fr)
+			}
 		}
 		when := tFalse
 		if k.whenExpr != nil {
@@ -120,14 +129,16 @@ func (ex *Exec) obligeEnv(fr *Frame, kind, detail string, pc, goal Term, pos tok
 		can := &Obligation{Name: name + "#known-canary", Kind: "known-canary", Fn: ex.topKey, Props: []string{k.Property}, Goal: And(when, Not(goal)), PC: pc,
 			Pos2: ex.ld.posString(pos), Inputs: ex.inputs, Cover: true, Known: k}
 		ex.sc.AddObligation(can)
+		origGoal = goal
 		goal = Or(when, goal)
 		knownHit = k
 	}
 	o := &Obligation{Name: name, Kind: kind, Fn: ex.topKey, Props: ex.props, Goal: goal, PC: pc, Pos2: ex.ld.posString(pos), Inputs: ex.inputs, Known: knownHit}
 	ex.sc.Comment("obligation " + name)
 	ex.sc.AddObligation(o)
-	// assert-then-assume
-	ex.sc.AssumeGoal(Implies(pc, goal))
+	// assert-then-assume: execution continues past this point only if the check held
+	// (for a known finding: the original condition, not the carved-out one)
+	ex.sc.AssumeGoal(Implies(pc, origGoal))
 }
 
 // entryEnv: parameter names (entry values) and lets, heap at entry.
@@ -420,7 +431,7 @@ func (ex *Exec) storeHeap(st *State, base Term, root types.Type, path []int, v V
 	t, name := typeAtPath(root, path)
 	if t == nil {
 		ex.unsup("heap path")
-		ex.havocHeap(st, nil)
+		ex.havocAll(st, "exec.go:431")
 		return
 	}
 	ex.storeHeapTyped(st, base, root, t, name, v)
@@ -449,7 +460,7 @@ func (ex *Exec) storeHeapTyped(st *State, base Term, root types.Type, t types.Ty
 		return
 	}
 	ex.unsup("heap store of " + t.String())
-	ex.havocHeap(st, nil)
+	ex.havocAll(st, "exec.go:460")
 }
 
 // havocHeap replaces the named heap arrays (all of them if keys == nil) by
@@ -514,6 +525,11 @@ func (ex *Exec) havocHeap(st *State, keys []string) {
 	na := ex.sc.Fresh("alloc", SInt)
 	ex.sc.Assert(app(SBool, ">=", na, st.alloc))
 	st.alloc = na
+}
+
+func (ex *Exec) havocAll(st *State, where string) {
+	ex.unsup("total heap havoc at " + where)
+	ex.havocHeap(st, nil)
 }
 
 // after a total havoc, first-time reads of arrays must not return the initial
@@ -658,7 +674,7 @@ func (ex *Exec) store(fr *Frame, st *State, p Val, v Val, t types.Type, pos toke
 		return
 	}
 	ex.unsup(fmt.Sprintf("store through %T", p))
-	ex.havocHeap(st, nil)
+	ex.havocAll(st, "exec.go:669")
 }
 
 func elemKey(t types.Type) string { return "E." + typeName(t) }
@@ -679,7 +695,7 @@ func (ex *Exec) storeElem(st *State, p ElemPtr, v Val) {
 	s, ok := scalarSort(p.Elem)
 	if !ok {
 		ex.unsup("slice of non-scalar " + p.Elem.String())
-		ex.havocHeap(st, nil)
+		ex.havocAll(st, "exec.go:690")
 		return
 	}
 	key := elemKey(p.Elem)
@@ -693,6 +709,11 @@ func globalKey(g *ssa.Global) string {
 
 func (ex *Exec) loadGlobal(st *State, p GlobalPtr, t types.Type) Val {
 	gt := p.G.Type().(*types.Pointer).Elem()
+	if len(p.Path) == 0 && typeName(gt) == "*regexp.Regexp" {
+		v := ex.heapRead(st, globalKey(p.G), SInt)
+		ex.regexpFacts(p.G, v)
+		return SV{v}
+	}
 	tt, name := typeAtPath(gt, p.Path)
 	if tt == nil {
 		return ex.freshVal(t, "g")
@@ -722,7 +743,7 @@ func (ex *Exec) storeGlobal(st *State, p GlobalPtr, t types.Type, v Val) {
 	gt := p.G.Type().(*types.Pointer).Elem()
 	tt, name := typeAtPath(gt, p.Path)
 	if tt == nil {
-		ex.havocHeap(st, nil)
+		ex.havocAll(st, "exec.go:738")
 		return
 	}
 	if s, ok := scalarSort(tt); ok {
@@ -742,7 +763,7 @@ func (ex *Exec) storeGlobal(st *State, p GlobalPtr, t types.Type, v Val) {
 		}
 	}
 	ex.unsup("global store of type " + tt.String())
-	ex.havocHeap(st, nil)
+	ex.havocAll(st, "exec.go:758")
 }
 
 // ---------------------------------------------------------------------------
@@ -818,85 +839,266 @@ func (ex *Exec) assignLoopOrdinals(fn *ssa.Function, ci *cfgInfo) {
 	if len(loops) == 0 {
 		return
 	}
-	// Each SSA loop: find the smallest enclosing for/range statement covering
-	// the positions of instructions in the loop body that is not already the
-	// statement of an inner loop... Use: statement whose span contains every
-	// positioned instruction of the loop and is the innermost such.
-	type cand struct {
-		h   *ssa.BasicBlock
-		min, max token.Pos
-	}
 	var hs []*ssa.BasicBlock
 	for h := range ci.loops {
 		hs = append(hs, h)
 	}
 	sort.Slice(hs, func(i, j int) bool { return hs[i].Index < hs[j].Index })
+	used := map[int]bool{}
+	// outer loops have more blocks: assign them first to the outermost candidate
+	sort.SliceStable(hs, func(i, j int) bool { return len(ci.loops[hs[i]].blocks) > len(ci.loops[hs[j]].blocks) })
 	for _, h := range hs {
 		li := ci.loops[h]
-		var mn, mx token.Pos
+		// positions of the instructions of the loop
+		var ps []token.Pos
 		for b := range li.blocks {
 			for _, in := range b.Instrs {
-				p := in.Pos()
-				if !p.IsValid() {
-					continue
-				}
-				if mn == 0 || p < mn {
-					mn = p
-				}
-				if p > mx {
-					mx = p
+				if p := in.Pos(); p.IsValid() {
+					ps = append(ps, p)
 				}
 			}
 		}
-		best := -1
-		for i, l := range loops {
-			if mn >= l.Pos() && mx <= l.End() {
-				if best < 0 || (l.Pos() >= loops[best].Pos() && l.End() <= loops[best].End()) {
-					// must also contain something outside inner loops' spans: approximate
-					best = i
-				}
-			}
-		}
-		// The innermost statement containing all positions may be an inner loop
-		// if the outer loop's own instructions carry no position; guard by
-		// requiring the header comment to agree in kind when available.
-		if best >= 0 {
-			li.ord = best + 1
-		}
-	}
-	// disambiguate duplicates: if two SSA loops map to the same statement, the
-	// one with more blocks is the outer one -> give it the enclosing statement.
-	seen := map[int]*loopInfo{}
-	for _, h := range hs {
-		li := ci.loops[h]
-		if li.ord == 0 {
+		if len(ps) == 0 {
 			continue
 		}
-		if o, dup := seen[li.ord]; dup {
-			outer, inner := o, li
-			if len(li.blocks) > len(o.blocks) {
-				outer, inner = li, o
+		// candidate statements: those whose span contains most of the positions; prefer
+		// the outermost unused statement that contains at least 80% of them
+		best, bestCover := -1, 0
+		for i, l := range loops {
+			if used[i] {
+				continue
 			}
-			_ = inner
-			// find enclosing statement of loops[ord-1]
-			cur := loops[outer.ord-1]
-			enc := -1
-			for i, l := range loops {
-				if l != cur && l.Pos() <= cur.Pos() && l.End() >= cur.End() {
-					if enc < 0 || l.Pos() >= loops[enc].Pos() {
-						enc = i
-					}
+			cover := 0
+			for _, p := range ps {
+				if p >= l.Pos() && p <= l.End() {
+					cover++
 				}
 			}
-			if enc >= 0 {
-				outer.ord = enc + 1
-				seen[outer.ord] = outer
+			if cover*5 >= len(ps)*4 {
+				if best < 0 || (l.Pos() <= loops[best].Pos() && l.End() >= loops[best].End()) || cover > bestCover && !(loops[best].Pos() <= l.Pos() && loops[best].End() >= l.End()) {
+					best, bestCover = i, cover
+				}
 			}
-			seen[inner.ord] = inner
-		} else {
-			seen[li.ord] = li
+		}
+		if best >= 0 {
+			li.ord = best + 1
+			used[best] = true
 		}
 	}
 }
 
 var _ = ast.Inspect
+
+// regexpFacts asserts, for a package-level `regexp.MustCompile(literal)` that is
+// never reassigned, what regexp/syntax says about its capture groups: their
+// number and, per group, the minimal length of a non-empty capture. These are
+// facts about the literal pattern computed from its syntax tree (exact).
+func (ex *Exec) regexpFacts(g *ssa.Global, v Term) {
+	key := "rxfacts:" + globalKey(g)
+	if ex.nilChecked[key] {
+		return
+	}
+	ex.nilChecked[key] = true
+	ex.analyseGlobals()
+	gi := ex.initOnly[g]
+	if gi == nil || gi.why != "" && !gi.ok && !strings.Contains(gi.why, "initialiser") {
+		return
+	}
+	pat, ok := regexpPatternOf(g)
+	if !ok {
+		pat, ok = ex.foldedRegexpPattern(g)
+	}
+	if !ok {
+		return
+	}
+	re, err := syntax.Parse(pat, syntax.Perl)
+	if err != nil {
+		return
+	}
+	n := re.MaxCap()
+	ex.sc.DeclareFun("sf.reNumSubexp", []Sort{SInt}, SInt)
+	ex.sc.DeclareFun("sf.reGroupMinLen", []Sort{SInt, SInt}, SInt)
+	ex.sc.DeclareFun("sf.reGroupDigits", []Sort{SInt, SInt}, SBool)
+	ex.sc.Assert(app(SBool, ">", v, IntLit(0)))
+	ex.sc.Assert(Eq(app(SInt, "sf.reNumSubexp", v), IntLit(int64(n))))
+	mins := map[int]int{}
+	digits := map[int]bool{}
+	var walk func(r *syntax.Regexp)
+	walk = func(r *syntax.Regexp) {
+		if r.Op == syntax.OpCapture {
+			mins[r.Cap] = rxMinLen(r.Sub[0])
+			digits[r.Cap] = rxDigitsOnly(r.Sub[0])
+		}
+		for _, s := range r.Sub {
+			walk(s)
+		}
+	}
+	walk(re)
+	for k := 1; k <= n; k++ {
+		ex.sc.Assert(Eq(app(SInt, "sf.reGroupMinLen", v, IntLit(int64(k))), IntLit(int64(mins[k]))))
+		ex.sc.Assert(Eq(app(SBool, "sf.reGroupDigits", v, IntLit(int64(k))), BoolLit(digits[k])))
+	}
+	ex.sc.Assert(Eq(app(SBool, "sf.reGroupDigits", v, IntLit(0)), tFalse))
+	ex.sc.Assert(Eq(app(SInt, "sf.reGroupMinLen", v, IntLit(0)), IntLit(int64(rxMinLen(re)))))
+	ex.assumedUsed[fmt.Sprintf("regexp facts of %s from its literal pattern %q (regexp/syntax): %d groups, minimal lengths %v", g.Name(), pat, n, mins)] = true
+}
+
+// rxDigitsOnly: every word of r consists of ASCII digits only.
+func rxDigitsOnly(r *syntax.Regexp) bool {
+	switch r.Op {
+	case syntax.OpEmptyMatch:
+		return true
+	case syntax.OpLiteral:
+		for _, c := range r.Rune {
+			if c < '0' || c > '9' {
+				return false
+			}
+		}
+		return true
+	case syntax.OpCharClass:
+		for i := 0; i+1 < len(r.Rune); i += 2 {
+			if r.Rune[i] < '0' || r.Rune[i+1] > '9' {
+				return false
+			}
+		}
+		return true
+	case syntax.OpCapture, syntax.OpPlus, syntax.OpStar, syntax.OpQuest, syntax.OpRepeat, syntax.OpConcat, syntax.OpAlternate:
+		for _, s := range r.Sub {
+			if !rxDigitsOnly(s) {
+				return false
+			}
+		}
+		return true
+	}
+	return false
+}
+
+func rxMinLen(r *syntax.Regexp) int {
+	switch r.Op {
+	case syntax.OpLiteral:
+		n := 0
+		for _, c := range r.Rune {
+			n += utf8.RuneLen(c)
+		}
+		return n
+	case syntax.OpCharClass, syntax.OpAnyCharNotNL, syntax.OpAnyChar:
+		return 1
+	case syntax.OpCapture:
+		return rxMinLen(r.Sub[0])
+	case syntax.OpConcat:
+		n := 0
+		for _, s := range r.Sub {
+			n += rxMinLen(s)
+		}
+		return n
+	case syntax.OpAlternate:
+		m := -1
+		for _, s := range r.Sub {
+			if l := rxMinLen(s); m < 0 || l < m {
+				m = l
+			}
+		}
+		if m < 0 {
+			return 0
+		}
+		return m
+	case syntax.OpPlus:
+		return rxMinLen(r.Sub[0])
+	case syntax.OpRepeat:
+		return r.Min * rxMinLen(r.Sub[0])
+	}
+	return 0
+}
+
+// foldedRegexpPattern: patterns built with fmt.Sprintf from constants
+// (dateRegexp, dateRangeRegexp): fold the Sprintf with the real fmt package.
+func (ex *Exec) foldedRegexpPattern(g *ssa.Global) (string, bool) {
+	initFn := g.Pkg.Func("init")
+	if initFn == nil {
+		return "", false
+	}
+	for _, b := range initFn.Blocks {
+		for _, in := range b.Instrs {
+			st, ok := in.(*ssa.Store)
+			if !ok || st.Addr != g {
+				continue
+			}
+			call, ok := st.Val.(*ssa.Call)
+			if !ok {
+				return "", false
+			}
+			f, ok := call.Call.Value.(*ssa.Function)
+			if !ok || f.String() != "regexp.MustCompile" || len(call.Call.Args) != 1 {
+				return "", false
+			}
+			sp, ok := call.Call.Args[0].(*ssa.Call)
+			if !ok {
+				return "", false
+			}
+			sf, ok := sp.Call.Value.(*ssa.Function)
+			if !ok || sf.String() != "fmt.Sprintf" {
+				return "", false
+			}
+			format, ok := sp.Call.Args[0].(*ssa.Const)
+			if !ok {
+				return "", false
+			}
+			sl, ok := sp.Call.Args[1].(*ssa.Slice)
+			if !ok {
+				return "", false
+			}
+			arr, ok := sl.X.(*ssa.Alloc)
+			if !ok {
+				return "", false
+			}
+			vals := map[int64]interface{}{}
+			for _, r := range *arr.Referrers() {
+				ia, ok := r.(*ssa.IndexAddr)
+				if !ok {
+					continue
+				}
+				idx, ok := ia.Index.(*ssa.Const)
+				if !ok {
+					return "", false
+				}
+				for _, r2 := range *ia.Referrers() {
+					if s2, ok := r2.(*ssa.Store); ok {
+						mi, ok := s2.Val.(*ssa.MakeInterface)
+						if !ok {
+							return "", false
+						}
+						c, ok := mi.X.(*ssa.Const)
+						if !ok || c.Value == nil || c.Value.Kind() != constant.String {
+							return "", false
+						}
+						vals[idx.Int64()] = constant.StringVal(c.Value)
+					}
+				}
+			}
+			var args []interface{}
+			for i := int64(0); i < int64(len(vals)); i++ {
+				args = append(args, vals[i])
+			}
+			return fmt.Sprintf(constant.StringVal(format.Value), args...), true
+		}
+	}
+	return "", false
+}
+
+// heapReadAny returns the current version of a heap array whose sort is not
+// known at the call site; the zero Term when the array has not been seen yet
+// (it is then marked havocked so that a later first read is fresh).
+func (ex *Exec) heapReadAny(st *State, key string) Term {
+	if t, ok := st.heap[key]; ok {
+		return t
+	}
+	if _, epoch := st.heap["__epoch"]; !epoch {
+		if _, mark := st.heap["__hv."+key]; !mark {
+			if t, ok := ex.heapInits[key]; ok {
+				return t
+			}
+		}
+	}
+	st.heap["__hv."+key] = ex.sc.Fresh("hvmark", SInt)
+	return Term{}
+}
